@@ -1,8 +1,9 @@
 // Command c16race is built with -race by the C16 harness. It reads rounds of file trees from stdin, builds
 // the trees of a round concurrently (one goroutine each, released together) with krusty, and prints the
 // outputs as JSON. Data-race reports of the Go race detector go to stderr and are parsed by the harness.
-// Between rounds the OpenAPI globals are reset (no build is running then), so every round starts from the
-// state of a fresh process.
+// The first round runs in the cold process; between rounds the OpenAPI globals are reset (no build is running
+// then), so every later round also starts from the state of a fresh process. Reference results (each tree built
+// alone) are computed by the harness in a different process.
 package main
 
 import (
@@ -63,7 +64,10 @@ func main() {
 	}
 	results := make([][][]string, len(in.Rounds))
 	for ri, rd := range in.Rounds {
-		openapi.ResetOpenAPI()
+		if ri > 0 {
+			// round 0 runs in the cold process: nothing has touched the schema globals yet
+			openapi.ResetOpenAPI()
+		}
 		if rd.GoMaxProcs > 0 {
 			runtime.GOMAXPROCS(rd.GoMaxProcs)
 		}
